@@ -24,6 +24,7 @@ package c11
 
 import (
 	"bytes"
+	"encoding/hex"
 	"encoding/xml"
 	"fmt"
 	"go/ast"
@@ -302,6 +303,10 @@ func (c *ctx) xmlRoundTrip(j jid.JID, lines []string) {
 	case err2 != nil || !e2.J.Equal(j):
 		c.fail("xml-roundtrip", "element", lines, "element encoding of %q decodes to %q (%v)", s, e2.J.String(), err2)
 	}
+	c.marshalTokens(j)
+	if len(c.seen)%4 == 0 || len(s) < 8 {
+		c.elemVariants(s, lines)
+	}
 	// the decoding step on the token level, for the model
 	for _, op := range []string{"unattr", "unelem"} {
 		old := jid.MustParse("z")
@@ -316,6 +321,116 @@ func (c *ctx) xmlRoundTrip(j jid.JID, lines []string) {
 			}
 		}
 		c.r.Line(op+" "+common.HexS(s)+" "+c.splitOracles(s), enc(old)+" "+common.B(err == nil))
+	}
+}
+
+// tokensOf tokenises an XML document with the real decoder.
+func tokensOf(doc string) ([]xml.Token, error) {
+	d := xml.NewDecoder(strings.NewReader(doc))
+	var out []xml.Token
+	for {
+		t, err := d.Token()
+		if err != nil {
+			if err.Error() == "EOF" {
+				return out, nil
+			}
+			return out, err
+		}
+		out = append(out, xml.CopyToken(t))
+	}
+}
+
+// marshalTokens: what MarshalXML / MarshalXMLAttr write, re-read with the real decoder.
+func (c *ctx) marshalTokens(j jid.JID) {
+	e := enc(j)
+	b, err := xml.Marshal(elemHolder{J: j})
+	if err == nil {
+		if toks, err := tokensOf(string(b)); err == nil && len(toks) >= 2 {
+			c.r.Line("melem "+e, common.EncToks(toks[1:len(toks)-1]))
+		}
+	}
+	if a, err := j.MarshalXMLAttr(xml.Name{Local: "j"}); err == nil {
+		c.r.Line("mattr "+e, common.HexS(a.Value))
+	}
+}
+
+// elemVariants decodes the element <j>…</j> with the text written in different ways
+// (white space around it, comments, CDATA sections, a child element, nothing at all):
+// UnmarshalXML parses exactly the character data that stands directly in the element.
+func (c *ctx) elemVariants(s string, lines []string) {
+	k := len(s) / 2
+	for k > 0 && k < len(s) && !utf8.RuneStart(s[k]) {
+		k--
+	}
+	cd := func(x string) string { return "<![CDATA[" + strings.ReplaceAll(x, "]]>", "]]]]><![CDATA[>") + "]]>" }
+	for _, v := range []string{
+		escText(s), " " + escText(s), escText(s) + "\n", "\n  " + escText(s) + "\n", "\t" + escText(s),
+		"<!--c-->" + escText(s), escText(s[:k]) + "<!-- c -->" + escText(s[k:]), cd(s[:k]) + escText(s[k:]), cd(s),
+		escText(s) + "<x>junk</x>", "<x>" + escText(s) + "</x>", escText(s[:k]) + "<x/>" + escText(s[k:]), "", " ", "<!--" + strings.ReplaceAll(escText(s), "--", "") + "-->",
+	} {
+		doc := "<j>" + v + "</j>"
+		toks, err := tokensOf(doc)
+		if err != nil || len(toks) < 2 {
+			continue
+		}
+		inner := toks[1 : len(toks)-1]
+		text, depth := "", 0
+		for _, t := range inner {
+			switch t := t.(type) {
+			case xml.StartElement:
+				depth++
+			case xml.EndElement:
+				depth--
+			case xml.CharData:
+				if depth == 0 {
+					text += string(t)
+				}
+			}
+		}
+		old := jid.MustParse("z")
+		var uerr error
+		p := guard(func() {
+			d := xml.NewDecoder(strings.NewReader(doc))
+			tok, _ := d.Token()
+			if st, ok := tok.(xml.StartElement); ok {
+				uerr = (&old).UnmarshalXML(d, st)
+			}
+		})
+		line := "unelemtoks " + common.EncToks(inner) + " " + c.splitOracles(text)
+		if p != "" {
+			c.r.Line(line, "PANIC")
+			c.fail("total", "unmarshal-xml", append(append([]string(nil), lines...), c.r.Prop+" "+line), "UnmarshalXML of %q panicked: %s", doc, p)
+			continue
+		}
+		c.r.Line(line, enc(old)+" "+common.B(uerr == nil))
+		// property oracle: the element decodes to what Parse makes of exactly its character data
+		want, werr := jid.Parse(text)
+		if werr != nil {
+			want = jid.MustParse("z")
+		}
+		if (uerr == nil) != (werr == nil) || !old.Equal(want) {
+			c.fail("xml-roundtrip", "element-chardata", append(append([]string(nil), lines...), c.r.Prop+" "+line), "UnmarshalXML of %q gives %q (%v); Parse of its character data %q gives %q (%v)", doc, old.String(), uerr, text, want.String(), werr)
+		}
+	}
+}
+
+// zeroJID: the encodings of the zero value JID{}.
+func (c *ctx) zeroJID() {
+	var z jid.JID
+	// hypothesis of C11_zero_jid_xml: ToUnicode("") = ""
+	if out, err := toUnicode(""); err != nil || len(out) != 0 {
+		c.r.Hist["hypothesis-fails:idna-empty"]++
+		c.r.Notes = append(c.r.Notes, "hypothesis idna-empty fails: ToUnicode(\"\") is not the empty string")
+	}
+	c.marshalTokens(z)
+	c.elemVariants("", []string{c.r.Prop + " melem - 0 0"})
+	var a attrHolder
+	b, err := xml.Marshal(attrHolder{})
+	if err == nil {
+		err = xml.Unmarshal(b, &a)
+	}
+	if err != nil || !a.J.Equal(z) {
+		c.fail("xml-roundtrip", "zero-attr", []string{c.r.Prop + " mattr - 0 0"}, "the zero JID does not survive the attribute encoding: %q (%v)", a.J.String(), err)
 	}
 }
 
@@ -631,7 +746,7 @@ var locals = []string{"", "a", "A", "user", "USER", "ｕｓｅｒ", "ß", "ẞ",
 	"\xff", "a\xc0\x80", "\xed\xa0\x80", "\x00", "a\x7f", "K", "ẞ", "ǆ", "Ǆ", "ΐ", "ΰ", "ŉ", "ᾼ", "ϓ", "ẛ̣", "ḍ̇", "q̣̇", "Å", "Å", "㎒", "①", "Ⅸ", "ⅸ",
 	strings.Repeat("a", 1023), strings.Repeat("a", 1024), strings.Repeat("é", 511), strings.Repeat("é", 512), strings.Repeat("ẞ", 341), strings.Repeat("ẞ", 342), strings.Repeat("ǰ", 400)}
 
-var domains = []string{"\u2135a", "\u2136.com", "a\u2137", "\u2138z.example", "", "a", "b", "example.net", "EXAMPLE.NET", "example.net.", "example.net..", "example.net...", ".", "..", "a.", "a..", ".a", "a..b",
+var domains = []string{"[fe80::1%a/b]", "[fe80::1%a@b]", "[::1%/]", "[fe80::1%25eth0]", "fe80::1%eth0", "\u2135a", "\u2136.com", "a\u2137", "\u2138z.example", "", "a", "b", "example.net", "EXAMPLE.NET", "example.net.", "example.net..", "example.net...", ".", "..", "a.", "a..", ".a", "a..b",
 	"example。net", "example.net。", "example.net．", "example.net｡", "a｡", "。", "a.。", "a｡.", "ｅｘａｍｐｌｅ.net", "ex­ample.net",
 	"xn--nxasmq6b", "xn--nxasmq6b.", "XN--NXASMQ6B", "xn--bcher-kva.example", "bücher.example", "BÜCHER.example", "bücher.example", "xn--", "xn--.com", "xn--a", "xn--a.com", "xn--fa-hia.de", "faß.de", "FASS.de", "fass.de",
 	"straße.de", "STRASSE.de", "βόλος.com", "βόλοσ.com", "ΒΌΛΟΣ.com", "日本.jp", "日本。jp", "שלום.il", "aא.il", "אa.il", "1א.il", "a‌b.com", "a‍b.com", "न्‍.com",
@@ -723,6 +838,39 @@ func Run(r *common.Run) error {
 				if len(f) >= 5 {
 					c.triple(un(f[2]), un(f[3]), un(f[4]), "replay")
 				}
+			case "melem", "mattr":
+				if len(f) >= 5 {
+					data := un(f[2])
+					ll, _ := strconv.Atoi(f[3])
+					dl, _ := strconv.Atoi(f[4])
+					if ll+dl <= len(data) {
+						if len(data) == 0 {
+							c.zeroJID()
+						} else {
+							c.triple(data[:ll], data[ll:ll+dl], data[ll+dl:], "replay")
+						}
+					}
+				}
+			case "unelemtoks":
+				// the character data of the tokens, re-run through every way of writing it
+				text := ""
+				depth := 0
+				for _, t := range strings.Split(f[2], ";") {
+					p := strings.Split(t, ":")
+					switch p[0] {
+					case "S":
+						depth++
+					case "E":
+						depth--
+					case "C":
+						if depth == 0 && len(p) > 1 {
+							b, _ := hex.DecodeString(p[1])
+							text += string(b)
+						}
+					}
+				}
+				c.elemVariants(text, nil)
+				c.str(strings.TrimSpace(text), "replay")
 			case "seq":
 				ops, err := decodeSeq(f[2])
 				if err != nil {
@@ -779,12 +927,13 @@ func Run(r *common.Run) error {
 	for _, s := range []string{"\u2137z", "\u2136Z\u04ea", "a@\u2135b/r", "example.com..", "a..", "..", "a@b｡", "a@example.net。/r", "a@b．.", "example.net.", "a@b/c", "a/b@c", "a@b@c", "@b", "a@", "a@b/", "/", "@", ""} {
 		c.str(s, "corpus")
 	}
-	for _, t := range [][3]string{{"", "example.com..", ""}, {"a", "b｡", "r"}, {"a", "b", "r"}, {"", "b", ""}, {"A", "B.", "R"}, {"a@", "b", ""}, {"", "[::1]", "r"}} {
+	for _, t := range [][3]string{{"", "[fe80::1%a/b]", ""}, {"a", "[fe80::1%x@y]", "r"}, {"", "example.com..", ""}, {"a", "b｡", "r"}, {"a", "b", "r"}, {"", "b", ""}, {"A", "B.", "R"}, {"a@", "b", ""}, {"", "[::1]", "r"}} {
 		c.triple(t[0], t[1], t[2], "corpus")
 	}
 
 	// operation sequences on live values (clause immutable)
 	c.sequences()
+	c.zeroJID()
 
 	// exhaustive: every string up to length L over {a @ / .}
 	maxLen := r.Pick(6, 8)
